@@ -73,6 +73,8 @@ def tri_vars(expr, out=None, opaque=None):
         pass
     elif _is_value_expr(e):
         out.add(src(e))
+    elif _const_compare(e) is not None:
+        pass
     else:
         opaque.add(normalise_atom(e)[0])
     return out, opaque
@@ -126,8 +128,33 @@ def tri_eval(expr, env, oenv):
         return bool(e.value)
     if _is_value_expr(e):
         return env[src(e)] == TRUTHY
+    c = _const_compare(e)
+    if c is not None:
+        return c
     k, flip = normalise_atom(e)
     return oenv[k] != flip
+
+
+def _const_value(e):
+    if isinstance(e, ast.Constant):
+        return e.value
+    if isinstance(e, ast.UnaryOp) and isinstance(e.op, ast.USub) and isinstance(e.operand, ast.Constant):
+        return -e.operand.value
+    raise ValueError
+
+
+def _const_compare(e):
+    if isinstance(e, ast.Compare) and len(e.ops) == 1:
+        try:
+            a, b = _const_value(e.left), _const_value(e.comparators[0])
+        except ValueError:
+            return None
+        from .fold import _CMP
+        try:
+            return bool(_CMP[type(e.ops[0])](a, b))
+        except Exception:
+            return None
+    return None
 
 
 def valuations(exprs, fixed=None):
